@@ -96,23 +96,33 @@ theorem arg_text_decodes (O : Oracles) (hf : Upnp.C08.FloatOps.RoundTrips O) (ro
     followed by that path, and the `Host` header the model sends (netloc of the resolved URL) is the
     device URL's authority — for every device URL with a scheme and every plain absolute path -/
 theorem control_url_abs_path (base sch r : Str) (hb : schemeOf base = some (sch, r))
+    (hlow : lowerScheme sch = true)
     (c : Char) (t : Str) (hc : c ≠ '/') (hp : plainPath ('/' :: c :: t) = true) :
     urljoin base ('/' :: c :: t) = some (sch ++ "://".toList ++ netloc base ++ '/' :: c :: t)
     ∧ netloc (sch ++ "://".toList ++ netloc base ++ '/' :: c :: t) = netloc base :=
-  urljoin_abs_path base sch r _ hb c t rfl hc hp
+  urljoin_abs_path base sch r _ hb hlow c t rfl hc hp
 
-/-- an absolute control URL is used as it is -/
-theorem control_url_absolute (base ref : Str) (hb : (schemeOf base).isSome = true)
-    (hr : (schemeOf ref).isSome = true) : urljoin base ref = some ref := by
+/-- an absolute control URL (`scheme://…`, lower-case scheme) is used as it is -/
+theorem control_url_absolute (base ref bs br rs rr : Str) (hb : schemeOf base = some (bs, br))
+    (hbl : lowerScheme bs = true) (hr : schemeOf ref = some (rs, rr)) (hrl : lowerScheme rs = true) :
+    urljoin base ref = some ref := by
   unfold urljoin
-  cases h : schemeOf base with
-  | none => simp [h] at hb
-  | some p =>
-    have hne : ref.isEmpty = false := by
-      cases ref with
-      | nil => simp [schemeOf] at hr
-      | cons _ _ => rfl
-    simp [hne, hr]
+  have hne : ref.isEmpty = false := by
+    cases ref with
+    | nil => simp [schemeOf] at hr
+    | cons _ _ => rfl
+  simp [hb, hbl, hne, hr, hrl]
+
+/-- what the URL model does NOT claim: a reference that `urlsplit` would take for an absolute URL of
+    another scheme (`x:y`, `c:d/e`) and an upper-case scheme are outside the modelled grammar (`none`:
+    nothing is proved or judged about the URL there) — Python returns such a reference unchanged and
+    lower-cases the scheme, which this model does not reproduce -/
+theorem url_model_limits :
+    urljoin "http://h:80/a/b".toList "x:y".toList = none
+    ∧ urljoin "http://h:80/a/b".toList "c:d/e".toList = none
+    ∧ urljoin "HTTP://h:80/x".toList "/ctl".toList = none
+    ∧ urljoin "http://h:80/a/b".toList "sub/c:d".toList = some "http://h:80/a/sub/c:d".toList := by
+  refine ⟨?_, ?_, ?_, ?_⟩ <;> decide +kernel
 
 /-! ### validation -/
 
